@@ -70,7 +70,7 @@ func rangeOverRootPair(v ssa.Value) (ssa.Value, bool) {
 func c04(c *Ctx) {
 	r := c.R
 	r.Rule("R-C04.1", "every x509.CreateCertificate in the authorisation helper uses a template literal that is not a CA, has ExtKeyUsage exactly {ClientAuth}, CommonName and first DNS name = the record ID = KeyIdFromPkix(request certificate key), SubjectKeyId = that key, NotBefore/NotAfter = the issuing root certificate's, public key parsed from that same key, parent and signer from one SigningParams() of the loop's root; the loop ranges over {roots.Current, roots.Next} of the loaded roots; the stored bundle's CA certificate is that root's")
-	r.Rule("R-C04.2", "the fetch response is built from the record K: NodeCredentials.RegistrationNonce/CertificateBundles from K, server public key derived from K's private key, EncryptMessage(nodeCreds, K), signature = Sign(_, the encrypted bytes placed in the response) by roots.Current's signer")
+	r.Rule("R-C04.2", "every path to encrypting/returning credentials passes validation success and the three equalities K.RegistrationNonce/R.Nonce, K.CertificatePublicKeyPkix/R.CertificatePublicKeyPkix, K.EncryptionPublicKeyBytes/R.EncryptionPublicKeyBytes (so only the key matching the signed request can open the response and it echoes that request's nonce); the fetch response is built from the record K: NodeCredentials.RegistrationNonce/CertificateBundles from K, server public key derived from K's private key, EncryptMessage(nodeCreds, K), signature = Sign(_, the encrypted bytes placed in the response) by roots.Current's signer")
 	r.Rule("R-C04.3", "in the authorisation helper no field of the record is written after its Store call, and the returned record is the stored object or the record reloaded after a duplicate-record error")
 	r.Rule("R-C04.4", "HandleFetchNodeCredentialsResponse: every success return and the copy of certificate bundles are cut by successful DecryptMessage(input.EncryptedNodeCredentials, n, new) and by byte-equality of the expected nonce with new.RegistrationNonce")
 	r.Rule("R-C04.5", "the server encryption private key is a fresh 32-byte buffer filled from the random reader with error and length checked before the record is stored")
@@ -335,6 +335,8 @@ func c04Response(c *Ctx) {
 	}
 	name := "registration.FetchNodeCredentials"
 	K := a.K
+	// the response is for this request: nonce, certificate key and encryption key of K equal the request's
+	fetchBinding(c, a, "R-C04.2")
 	for i, e := range a.encrypts {
 		pos := p.Pos(e.Pos())
 		msg, ok := core.Strip(e.Call.Args[1]).(*ssa.Alloc)
